@@ -84,6 +84,29 @@ func classify(cl string, r buildOutcome, o typesOutcome, min *Prog) string {
 	return ""
 }
 
+var knownClassSeen = map[string]int{}
+
+// classifyU recognises classes of recorded findings on the source of a failing case of the text
+// streams.
+//
+//   - range-loop-considered-terminating: Build accepts a function with results that go/types
+//     rejects with "missing return", and turning every `for range "ab"` into a loop with a
+//     condition (never terminating either, for the specification) makes Build reject it too: the
+//     only cause is that Build takes a `for` with a range clause for a terminating statement.
+func classifyU(cl, src string) string {
+	if cl == "accepts-what-go/types-rejects" && strings.Contains(src, `for range "ab"`) {
+		_, o := evalSrc(src)
+		if !o.OK && strings.Contains(o.Msg, "missing return") {
+			alt := strings.ReplaceAll(src, `for range "ab"`, "for x < 3")
+			r2, o2 := evalSrc(alt)
+			if r2.Class == "builderror" && !o2.OK && strings.Contains(r2.Msg, "missing return") {
+				return "range-loop-considered-terminating"
+			}
+		}
+	}
+	return ""
+}
+
 func evalSrc(src string) (buildOutcome, typesOutcome) { return buildReal(src), checkTypes(src) }
 
 // shrink: statement deletion, then replacing expressions by their operands, as long as the same
@@ -241,11 +264,19 @@ func run(c *hx.Ctx) error {
 		cases = append(cases, &tcase{p: &Prog{Pre: "-"}, u: u, kind: "stream:declaration-use", src: u.src()})
 	}
 
+	for i, nt := 0, c.N(1500, 150000); i < nt; i++ {
+		u := terminatingProgram(c)
+		cases = append(cases, &tcase{p: &Prog{Pre: "-"}, u: u, kind: "stream:terminating-statements", src: u.src()})
+	}
+
 	// model answers
 	var lines []string
 	var idx []int
 	for i, tc := range cases {
-		if tc.p.inModel() {
+		if tc.u != nil && tc.u.line != "" {
+			lines = append(lines, tc.u.line)
+			idx = append(idx, i)
+		} else if tc.p.inModel() {
 			lines = append(lines, tc.p.line())
 			idx = append(idx, i)
 		}
@@ -314,12 +345,58 @@ func run(c *hx.Ctx) error {
 				}
 			}
 		}
+		if tc.u != nil && tc.u.line != "" && tc.model != "" {
+			// the specification's "terminating statement" (Model/Terminating.lean) vs go/types
+			missing := !tc.orc.OK && strings.Contains(tc.orc.Msg, "missing return")
+			switch {
+			case tc.orc.OK || missing:
+				res.SpecChecks["terminating-model-vs-go/types"]++
+				want := "ok terminating"
+				if missing {
+					want = "ok falls-off"
+					res.Hist("terminating:missing-return")
+				} else {
+					res.Hist("terminating:accepted")
+				}
+				if tc.model != want {
+					res.AddBreak(proto.Break{Kind: "correspondence", Name: "terminating-model-vs-go/types", Case: tc.u.line,
+						Human: tc.src, Impl: want + "   [" + tc.orc.Msg + "]", Model: tc.model})
+				} else if cl == "" && (tc.model == "ok terminating") != (tc.real.Class == "ok") {
+					res.AddBreak(proto.Break{Kind: "correspondence", Name: "terminating-model-vs-Build", Case: tc.u.line,
+						Human: tc.src, Impl: tc.real.Class + " " + tc.real.Msg, Model: tc.model})
+				}
+			default:
+				res.Hist("terminating:other-go/types-error")
+			}
+		}
+		if cl == "" && tc.u != nil {
+			continue
+		}
 		if cl != "" && tc.u != nil {
+			if fid := classifyU(cl, tc.src); fid != "" && c.Known(fid) != "" && knownClassSeen[fid] >= 5 {
+				// the class is recognised on the program as generated (the test is semantic: it
+				// holds only if the recorded difference is the sole cause); the first five of a
+				// run are shrunk as well, for the record
+				knownClassSeen[fid]++
+				res.Hist("known-class:" + fid)
+				continue
+			}
 			min := shrinkU(tc.u, cl)
 			r, o := evalSrc(min.src())
-			res.AddBreak(proto.Break{Kind: "property", Name: cl, Case: "source", Human: min.src(),
-				Impl: r.Class + " " + r.Msg, Model: fmt.Sprintf("go/types ok=%v %s", o.OK, o.Msg)})
-			if os.Getenv("C03_VERBOSE") != "" && !seenMin[min.src()] {
+			b := proto.Break{Kind: "property", Name: cl, Case: "source", Human: min.src(),
+				Impl: r.Class + " " + r.Msg, Model: fmt.Sprintf("go/types ok=%v %s", o.OK, o.Msg)}
+			for _, f := range c.Findings {
+				if findingSrc(f.Minimal) == min.src() {
+					b.Finding = f.ID
+				}
+			}
+			if fid := classifyU(cl, min.src()); fid != "" {
+				b.Finding = c.Known(fid)
+				knownClassSeen[fid]++
+				res.Hist("known-class:" + fid)
+			}
+			res.AddBreak(b)
+			if os.Getenv("C03_VERBOSE") != "" && b.Finding == "" && !seenMin[min.src()] {
 				seenMin[min.src()] = true
 				fmt.Fprintf(os.Stderr, "---- %s (%s)\n%s  build: %s %s\n  go/types: ok=%v %s\n", cl, tc.kind, min.src(), r.Class, r.Msg, o.OK, o.Msg)
 			}
